@@ -449,3 +449,31 @@ class FromSml:
 
 
 FromSml.uses = [ImportInheritedAbs, ItemInitAbs, ReadItem, ReadItems, NumberTokens, BinaryTokens, BooleanTokens, TextTokens]
+
+
+# =============================================================================================== the sub-reader ItemL hands to _read_items
+@contract("secsgem.secs.item_l:ItemL._read_sml_token", "C15")
+class ListMemberReader:
+    """`ItemL.from_sml` passes `cls._read_sml_token` - ItemL's own override - to `_read_items` as the reader of one member.
+    This is the real function behind the assumed sub-reader contract SubParserAbs: through
+    ReadItem it either raises or consumes at least one token, stays inside the token list and the segment it consumed is
+    bracket-balanced - exactly the clauses SubParserAbs assumes, here as obligations on the real code."""
+
+    cases = None
+    may_raise = [Exception]
+    uses = [ReadItem]
+
+    def inputs():
+        return {"cls": Const(ItemL), "parser": parser_obj()}
+
+    def requires(parser):
+        return parser_ok(parser)
+
+    def raises():
+        return {}
+
+    def ensures(parser, old):
+        c0, c1 = old.parser._token_counter, parser._token_counter
+        return {"consumes-at-least-one-token": c1 > c0,
+                "stays-inside-the-token-list": c1 < ntok(parser),
+                "consumed-segment-is-bracket-balanced": opens(parser, c0 + 1, c1 + 1) == closes(parser, c0 + 1, c1 + 1)}
